@@ -50,6 +50,7 @@ class Ctx:
         self.workers = workers
         self.t0 = time.time()
         self.scratch = scratch_root()
+        os.environ["NAUNET_VERIF_SCRATCH"] = str(self.scratch)
         self._known = self._load_known()
         self._seen_sigs: dict[str, dict] = {}
         self.new_violations: list[tuple[str, str]] = []  # (sig, replay path)
